@@ -20,6 +20,12 @@ pub enum ActKind {
     Rename(String),
     /// replace the relay set by this one URL
     Relay(String),
+    /// replace the relay set by these URLs (may be empty)
+    Relays(Vec<String>),
+    /// set (Some(b): hash=[b;32], key=[b+1;32], nonce=[b+2;12]) or clear (None) the group image
+    Image(Option<u8>),
+    /// change the description
+    Describe(String),
     /// rotate the Nostr group id to [b;32]
     RotateId(u8),
     /// replace admin set by these members
@@ -43,6 +49,9 @@ impl ActKind {
             ActKind::Rename(_) => "rename".into(),
             ActKind::Relay(_) => "relay".into(),
             ActKind::RotateId(_) => "rotate".into(),
+            ActKind::Relays(_) => "relays".into(),
+            ActKind::Image(_) => "image".into(),
+            ActKind::Describe(_) => "describe".into(),
             ActKind::Admins(_) => "admins".into(),
             ActKind::Add(_) => "add".into(),
             ActKind::Remove(_) => "remove".into(),
@@ -265,7 +274,7 @@ pub fn build_world(sc: &Scenario, backend: Bk) -> Result<World, GenError> {
         let p = &w.pool[i];
         let on = w.spine.iter().any(|s| s == &p.node);
         let win = p.child.as_ref().map(|c| w.spine.iter().any(|s| s == c)).unwrap_or(false);
-        (p.node.len(), !on, p.kind == EvKind::Commit, !win, p.ts, p.event.id.to_hex())
+        (p.node.len(), !on, p.kind == EvKind::Commit, !win, if p.kind == EvKind::Commit { p.ts } else { 0 }, if p.kind == EvKind::Commit { p.event.id.to_hex() } else { format!("{i:04}") })
     });
     w.settle_order = order;
     // sensitive values
@@ -352,6 +361,10 @@ fn expand(
             ActKind::SelfUpdate => with_mdk!(c, m => m.self_update(&gid)).map_err(ge(&label))?.evolution_event,
             ActKind::Rename(n) => with_mdk!(c, m => m.update_group_data(&gid, NostrGroupDataUpdate::new().name(n.clone()))).map_err(ge(&label))?.evolution_event,
             ActKind::Relay(u) => with_mdk!(c, m => m.update_group_data(&gid, NostrGroupDataUpdate::new().relays(vec![relay(u)]))).map_err(ge(&label))?.evolution_event,
+            ActKind::Relays(us) => with_mdk!(c, m => m.update_group_data(&gid, NostrGroupDataUpdate::new().relays(us.iter().map(|u| relay(u)).collect()))).map_err(ge(&label))?.evolution_event,
+            ActKind::Image(Some(b)) => with_mdk!(c, m => m.update_group_data(&gid, NostrGroupDataUpdate::new().image_hash(Some([*b; 32])).image_key(Some([b.wrapping_add(1); 32])).image_nonce(Some([b.wrapping_add(2); 12])))).map_err(ge(&label))?.evolution_event,
+            ActKind::Image(None) => with_mdk!(c, m => m.update_group_data(&gid, NostrGroupDataUpdate::new().image_hash(None))).map_err(ge(&label))?.evolution_event,
+            ActKind::Describe(d) => with_mdk!(c, m => m.update_group_data(&gid, NostrGroupDataUpdate::new().description(d.clone()))).map_err(ge(&label))?.evolution_event,
             ActKind::RotateId(b) => with_mdk!(c, m => m.update_group_data(&gid, NostrGroupDataUpdate::new().nostr_group_id([*b; 32]))).map_err(ge(&label))?.evolution_event,
             ActKind::Admins(names) => {
                 let mut pks = Vec::new();
@@ -434,10 +447,17 @@ fn expand(
                     return Err(GenError(format!("merge_pending_commit {}: {e:?}", w.pool[p.pool_idx].label)));
                 }
             } else {
+                // proposals of this node come first (a commit by reference needs them); an admin's
+                // auto-commit triggered by that is dropped again below
+                for pe in w.pool.iter().filter(|q| q.kind == EvKind::Proposal && q.node == path && &q.author != n) {
+                    let _ = f.process(&pe.event);
+                }
                 // a reference client that holds an own pending commit of this node drops it first: the
                 // reference is "a client that processed exactly this path in order"
                 let has_pending = f.group_obs(&gid).map(|o| o.pending_commit).unwrap_or(false);
-                if has_pending {
+                let authored_here = node.acts.iter().any(|x| &x.actor == n && x.kind.is_commit());
+                if has_pending && !authored_here {
+                    // an auto-commit produced while following the proposals was never published
                     let _ = with_mdk!(f, m => m.clear_pending_commit(&gid));
                 }
                 match f.process(&commit_ev) {
@@ -481,4 +501,31 @@ fn expand(
 
     w.nodes.insert(path.clone(), NodeInfo { path, core, members, record, relays, clients });
     Ok(())
+}
+
+/// A real client has one history: every member may author only along one root-to-leaf path of the tree.
+pub fn single_author_paths(sc: &Scenario) -> bool {
+    fn walk(n: &Node, path: &mut Vec<usize>, out: &mut BTreeMap<String, Vec<Vec<usize>>>) {
+        for (i, a) in n.acts.iter().enumerate() {
+            out.entry(a.actor.clone()).or_default().push(path.clone());
+            if let Some(c) = &a.child {
+                path.push(i);
+                walk(c, path, out);
+                path.pop();
+            }
+        }
+    }
+    let mut m: BTreeMap<String, Vec<Vec<usize>>> = BTreeMap::new();
+    walk(&sc.root, &mut vec![], &mut m);
+    for (_, nodes) in m {
+        for a in &nodes {
+            for b in &nodes {
+                let k = a.len().min(b.len());
+                if a[..k] != b[..k] {
+                    return false;
+                }
+            }
+        }
+    }
+    true
 }
